@@ -31,6 +31,8 @@ pushed, piece by piece.
     that is not a comment is white space, and no piece is code.
   * `missed_blank_lines_clamped` (C08): every run of line breaks pushed by `push_vertical_spaces` obeys
     `RF.Props.C08.clamp_bounds` with respect to the buffer in front of it.
+  * `close_block_no_panic`, `close_block_content`, `close_block_comments_emitted_partial` (C03, C16): the
+    same for the comments in front of a closing brace (`visitor.rs::close_block`).
   * `missed_code_kept_verbatim` / `missed_code_stripped_partial` / `missed_code_stripped_counterexample`
     (C08): `process_missing_code` copies code line by line, dropping the LAST trailing blank of a line when
     the line ends in an odd number of blanks (`last_wspace` is cleared by the second blank of a pair), and
@@ -455,6 +457,21 @@ theorem close_block_content (env : Env) (pre snippet post : List Char)
   have hw : written v v' = o := by unfold written; rw [hp.log]; simp
   rw [hw]
   exact ⟨hp.buffer, by simp [closeContentOk, hc hrc]⟩
+
+/-- Below style edition 2024 `close_block` writes the comment slices of the snippet as comment pieces,
+exactly once each and in order, each as `rewrite_comment` returned it for some shape (or as written
+where it failed). -/
+theorem close_block_comments_emitted_partial (env : Env) (pre snippet post : List Char)
+    (hbig : env.big = pre ++ snippet ++ post) (unindentComment : Bool) (v v' : Vis)
+    (hts : env.config.hard_tabs = true → 1 ≤ env.config.tab_spaces) (hed : env.ed2024 = false)
+    (h : closeBlock env (utf8Len pre) (utf8Len pre + utf8Len snippet) unindentComment v = some v') :
+    ∃ shapes : List Shape, shapes.length = (commentTexts snippet).length ∧
+      commentPieces (written v v') =
+        List.zipWith (fun c sh => rcOr env c sh) (commentTexts snippet) shapes := by
+  obtain ⟨o, shapes, hlog, hlen, hzip⟩ :=
+    closeBlock_comments env hts hed pre snippet post hbig unindentComment v v' h
+  have hw : written v v' = o := by unfold written; rw [hlog]; simp
+  rw [hw]; exact ⟨shapes, hlen, hzip⟩
 
 /-- `{ x; /* c */ }`: the comment stays behind the statement, the brace goes to its own line. -/
 example : (closeBlock (env0 ['{', ' ', 'x', ';', ' ', '/', '*', ' ', 'c', ' ', '*', '/', ' ', '}']) 4 13 false
